@@ -439,8 +439,9 @@ void* trampoline(void* p) {
 }
 
 Thread* find_by_pthread(pthread_t p) {
-  for (int i = 0; i < G.nth; i++)
-    if (G.th[i].st != T_UNUSED && i != 0 && pthread_equal(G.th[i].pth, p)) return &G.th[i];
+  // glibc recycles pthread_t values as soon as a thread was joined: newest first, joined records skipped
+  for (int i = G.nth - 1; i > 0; i--)
+    if (G.th[i].st != T_UNUSED && !G.th[i].joined && pthread_equal(G.th[i].pth, p)) return &G.th[i];
   return nullptr;
 }
 
